@@ -312,12 +312,14 @@ def shape_case(p, res):
     enc, dec, latent, out_ch, sig, emod, in_ch = arch(a)
     emod.eval()
     sizes = [16, 32, 48, 64]
-    for H in sizes:
-        for Bn in (1, 2, 5):
+    # square sizes of the property's list and the rectangular ones made of them (the contract is stated per dimension)
+    hw = [(H, H) for H in sizes] + [(32, 48), (48, 32), (16, 64), (64, 32)]
+    for H, Wd in hw:
+        for Bn in ((1, 2, 5) if H == Wd else (1, 2)):
             if a == "kurka" and p["tier"] == "quick" and H == 64 and Bn == 5:
                 continue
-            cfg = f"H={H},B={Bn}"
-            x = image(Bn, in_ch, H, H)
+            cfg = f"H={H},B={Bn}" if H == Wd else f"H={H},W={Wd},B={Bn}"
+            x = image(Bn, in_ch, H, Wd)
             try:
                 with torch.no_grad():
                     z = enc(x)
@@ -326,10 +328,10 @@ def shape_case(p, res):
                 res.viol(a, cfg, "raises", f"{type(e).__name__}: {str(e)[:200]}")
                 continue
             res.ev(1, nontrivial=1, transitions=2)
-            if tuple(z.shape) != latent(Bn, H, H):
-                res.viol(a, cfg, "latent-shape", f"latent shape {tuple(z.shape)}, documented {latent(Bn, H, H)}")
-            if tuple(y.shape) != (Bn, out_ch, H, H):
-                res.viol(a, cfg, "output-shape", f"decoder output shape {tuple(y.shape)}, expected {(Bn, out_ch, H, H)}")
+            if tuple(z.shape) != latent(Bn, H, Wd):
+                res.viol(a, cfg, "latent-shape", f"latent shape {tuple(z.shape)}, documented {latent(Bn, H, Wd)}")
+            if tuple(y.shape) != (Bn, out_ch, H, Wd):
+                res.viol(a, cfg, "output-shape", f"decoder output shape {tuple(y.shape)}, expected {(Bn, out_ch, H, Wd)}")
             if not bool(torch.isfinite(y).all()) or (sig and (float(y.min()) < 0.0 or float(y.max()) > 1.0)):
                 res.viol(a, cfg, "range", f"decoder output in [{float(y.min())}, {float(y.max())}]" + (" but the decoder ends in a sigmoid" if sig else ""))
             res.outcome((a, tuple(z.shape)[1:]))
